@@ -14,7 +14,7 @@ EXPLANATION = (
     "should_show_subcommand / is_hide_set / get_visible_quoted_name / should_show_help; a loop whose item uses are dominated "
     "by the !is_hide_set edge; presence/metadata-only use; hand-over to a sibling that filters its slice parameter) — an "
     "unfiltered flow to output is a violation; should_show_arg must return false first on is_hide_set(). "
-    "R12.3 the help error is rendered from the parser's current command. NOT decided: that every visible item is listed, "
+    "R12.4 completeness side: every filter/find/any on an item iteration in help_template/usage consults only the reviewed visibility and sectioning predicates (is_hide_set, should_show_*, get_help_heading, is_positional, is_global_set, ...), so no other predicate can drop a visible item. R12.3 the help error is rendered from the parser's current command. NOT decided: that every visible item is listed, "
     "boundedness of padding for every width."
 )
 TRUSTED = ["rustc MIR", "clapfacts", "lib/panics.py", "audit/panic.tsv"]
@@ -106,6 +106,32 @@ def ref_set(body, t):
         if s["k"] == "assign" and s["rv"]["k"] in ("ref",) and pl_local(s["rv"]["place"]) in t:
             out.add(pl_local(s["place"]))
     return out
+
+
+LIST_PRED_OK = (r"(arg::Arg::is_hide_set|command::Command::is_hide_set|possible_value::PossibleValue::is_hide_set|arg::Arg::get_help_heading|arg::Arg::is_positional|"
+                r"arg::Arg::is_global_set|help_template::should_show_arg|help_template::should_show_subcommand|possible_value::PossibleValue::get_visible_quoted_name|"
+                r"possible_value::PossibleValue::should_show_help|arg::Arg::get_id|arg::Arg::get_index|command::Command::get_name)$")
+
+
+def listing_filters(fx, res, rule, body_rx):
+    """Completeness side of the listing rules: a filter on an item iteration that feeds a listing may consult only the reviewed
+    visibility / sectioning predicates.  Any other predicate can drop a visible item from the listing."""
+    n = 0
+    for b in fx.bodies(body_rx):
+        for c in b.calls_to(ITEM_SRC):
+            if not isinstance(c.dest, int):
+                continue
+            t = taint_forward(b, [c.dest], call_transfer=lambda cc, ta: 0 in ta and (cc.is_(ADAPT) or cc.is_(r"Option::(unwrap|expect|unwrap_or_default)$")))
+            for u in b.calls():
+                if not (u.args and op_local(u.args[0]) in t and u.is_(r"Iterator::(filter|filter_map|find|find_map|any|all|position|take_while|skip_while)$")):
+                    continue
+                n += 1
+                extra = sorted(set(cc.callee_q.split("::", 1)[1] for cb in closure_bodies(fx, u) for x in tree(cb) for cc in x.calls()
+                                   if cc.callee_q and re.match(r"^clap_(builder|mangen)::", cc.callee_q) and not sp_macro(cc.sp) and not re.search(LIST_PRED_OK, cc.callee_q)) |
+                               set(q.split("::", 1)[1] for q in u.fnitems if re.match(r"^clap_(builder|mangen)::", q) and not re.search(LIST_PRED_OK, q)))
+                res.check(not extra, rule, "listing-filter|%s|%s" % (b.q.split("::")[-1].split("{")[0] or b.q, u.callee_q.rsplit("::", 1)[1]), u.where(),
+                          "filter consults only visibility / sectioning predicates", "a listing %s in %s also consults %s: items that are visible can be left out of the listing" % (u.callee_q.rsplit("::", 1)[1], b.q, extra))
+    return n
 
 
 def run(ctx):
@@ -204,6 +230,9 @@ def run(ctx):
     sss = fx.body("clap_builder::output::help_template::should_show_subcommand")
     res.check(bool(sss.calls_to(r"Command::is_hide_set$")), "R12.2", "hide|should_show_subcommand", sss.where(), "should_show_subcommand = !is_hide_set", "should_show_subcommand ignores is_hide_set")
 
+    # ---------------- R12.4 listing filters consult nothing but visibility / sectioning predicates
+    nlf = listing_filters(fx, res, "R12.4", r"^clap_builder::output::(help_template|usage)::")
+    res.floor("R12.4", "listing filters in help_template/usage", nlf, 15)
     # ---------------- R12.3 help for the current level
     he = fx.body("clap_builder::parser::parser::Parser::help_err")
     okc = all(re.match(r"^self\.cmd", expr(he, c.args[0])) for c in he.calls_to(r"Command::write_help_err$", r"error::Error::display_help$"))
